@@ -773,6 +773,14 @@ func (c *Connection) write(ctx context.Context, msg Message) error {
 		if req, ok := msg.(*Request); ok && !req.IsCall() && s.outgoingNotifications > 0 {
 			return
 		}
+		if _, ok := msg.(*Response); ok && s.writeErr == nil {
+			// A response belongs to an incoming call that was admitted before the
+			// shutdown began and that is still counted as in flight, so the
+			// transport is still open. A graceful shutdown lets that call run to
+			// completion, and must also deliver its result: the peer (which may be
+			// shutting down too) cannot become idle until its call is answered.
+			return
+		}
 		err = s.shuttingDown(ErrServerClosing)
 	})
 	if err != nil {
